@@ -12,7 +12,7 @@
 (* back needs no bookkeeping.  Absent cell = blank.  Acyclic workbooks     *)
 (* only (cycles are XlEvalMachine's business).                             *)
 (***************************************************************************)
-EXTENDS XlFuncs, XlSyntax
+EXTENDS XlLibrary, XlSyntax
 
 Cell(wb, sh, c, r) == IF <<sh, c, r>> \in DOMAIN wb.cells THEN wb.cells[<<sh, c, r>>] ELSE [c |-> "absent"]
 
@@ -53,7 +53,7 @@ EvalCallStrict(f, vals) ==
     CASE f = "SUM"    -> SumArgs(vals)
       [] f = "COUNTA" -> Whole(CountNonBlank(FlatVals(vals)))
       [] f \in {"MAX", "MIN", "AVERAGE"} -> (LET fe == FirstErr(FlatVals(vals)) IN IF fe.t = "err" THEN fe ELSE Open)   \* XlAgg has the values
-      [] OTHER        -> Call(f, vals)
+      [] OTHER        -> LibCall(f, vals)          \* every modelled function family
 
 RECURSIVE Eval(_, _, _)
 RECURSIVE EvalCell(_, _, _, _)
